@@ -8,6 +8,8 @@ from .. import e3 as e3mod
 from .. import guards
 from ..repo import AnalysisError
 
+from . import shared
+
 LEVEL = "other"
 EXPLANATION = (
     "Decides: the delete block of close is reached only on the branch where, in "
@@ -20,6 +22,7 @@ EXPLANATION = (
     "site on it; a close on a connection holding no mailbox obtains one through "
     "the get-or-create first. Not decided: availability to the other side beyond "
     "the guard.")
+EXPLANATION += ' Also decided (re-send): the deletion phase of close is reachable from the half-done state, and the closed-marker of a connection is set only by its own close handler; no start-up statement touches mailboxes, side records or messages.'
 
 RETIRE_TABLES = ("nameplates", "messages", "mailbox_sides", "mailboxes")
 
@@ -49,6 +52,9 @@ def _row_of_own_mailbox(model, p, term):
 
 def run(ctx):
     model = ctx.model
+    shared.r_lookup(ctx, "R08.lookup", ('mailboxes', 'mailbox_sides'))
+    shared.r_startup(ctx, "R08.startup", ('mailboxes', 'mailbox_sides', 'messages'),
+                     'a mailbox with an open side is deleted or altered by something other than a close or expiry')
     from .. import roles as _roles
     R = _roles.get(model)
     ctx.rule("R08.guard", "close deletes only when, after marking this side closed "
@@ -93,7 +99,8 @@ def run(ctx):
                 for rows, sel in sel_after.items():
                     eq = sel["src"]["where_eq"]
                     if eq is None or set(eq) != {"mailbox_id"} or \
-                            not is_own_mailbox_id(eq["mailbox_id"]):
+                            not is_own_mailbox_id(eq["mailbox_id"]) or \
+                            not sel["stmt"].plain_rows:
                         continue
                     found, ok, text = guards.guard_verdict(e["pc"][len(sel["pc"]):], rows, "opened")
                     if found:
@@ -218,3 +225,26 @@ def run(ctx):
                    ok, closes[0], "" if ok else "close on a connection without a mailbox "
                    "does not go through open_mailbox")
     ctx.require("R08.reclose", nr, 1, "close paths without a held mailbox")
+    # R08.resend: re-sending close is harmless and answered `closed`
+    ctx.rule("R08.resend", "a close that is re-sent still completes: the retirement "
+             "phase of close is reachable from the half-done state (flag committed, "
+             "deletion not; same rule as R10.resume), and nothing but the close handler "
+             "itself marks a connection as having closed")
+    from .c10 import _resume
+    from .c17 import once_flag_of, foreign_setters
+    from ..report import Ctx
+    sub = Ctx(model, "C10", ctx.tier)
+    _resume(sub)
+    nres = 0
+    for o in sub.obligations:
+        if "mailboxes" in o.construct:
+            nres += 1
+            ctx.ob("R08.resend", o.construct, o.ok, o.site, o.detail)
+    ctx.require("R08.resend", nres, 1, "mailbox retirement deletes on close paths")
+    hh, flag, _ff = once_flag_of(model, "close")
+    if flag is not None:
+        for (e, own) in foreign_setters(model, hh, flag):
+            ctx.ob("R08.resend", "%s set by %s" % (flag, e["func"]), own, e,
+                   "" if own else "the connection is marked as having closed by %s, not by "
+                   "a close command: its (re-sent) close is answered with an error instead "
+                   "of `closed`" % e["func"])
